@@ -462,4 +462,40 @@ example :
     (exampleOf [a] 200, exampleOf [a, b] 200, exampleOf [b, a] 200, exampleOf [a, b] 404) =
       ((true, []), (false, [s "alt", s "ok"]), (false, [s "alt", s "ok"]), (false, [])) := by decide
 
+/-! ### validation: what can be said about the validator itself
+
+`validation_transparent` is about *any* validator `V` (a parameter: the jsonschema library on the embedded
+meta-schema): it is a statement about the wiring — validation on filters with `V` and never alters a document. That
+`V` accepts what is valid is, for the real `V`, observed per case (meta-schema verdict, validator probe). For the part
+of the meta-schemas that is transcribed (`wfDoc`) it is a theorem: -/
+
+/-- **the fragment validator never rejects**: with the transcribed fragment of the meta-schema as the validator,
+    switching validation on changes nothing at all — every document `Generate` produces is accepted (this is `wf_doc`
+    used as a statement about validation: a validator that checks no more than `wfDoc` cannot reject a generated
+    document; what the real meta-schema demands beyond the fragment is covered by correspondence only) -/
+theorem fragment_validator_never_rejects (cfg : ApiCfg) (v : Version) (strict : Bool) (env : Env) (ops : List OpIn)
+    (henv : EnvNamed env) (hvalid : ∀ op ∈ ops, validatePath op.path = true) :
+    generate cfg v strict (some (wfDoc v)) env ops = generate cfg v strict none env ops := by
+  rw [validation_transparent]
+  cases h : generate cfg v strict none env ops with
+  | error e => rfl
+  | ok d =>
+    simp only []
+    rw [wf_doc cfg v strict none env ops d henv hvalid h]
+    rfl
+
+/-- and more generally: any validator that accepts every document satisfying the whole oracle `docOK` accepts every
+    generated document — validation on equals validation off for it -/
+theorem sound_validator_never_rejects (cfg : ApiCfg) (v : Version) (strict : Bool) (ok : Doc Schema → Bool) (env : Env)
+    (ops : List OpIn) (henv : EnvNamed env) (hvalid : ∀ op ∈ ops, validatePath op.path = true)
+    (hok : ∀ d, docOK v ops d = true → ok d = true) :
+    generate cfg v strict (some ok) env ops = generate cfg v strict none env ops := by
+  rw [validation_transparent]
+  cases h : generate cfg v strict none env ops with
+  | error e => rfl
+  | ok d =>
+    simp only []
+    rw [hok d (generate_meets_spec cfg v strict none env ops d henv hvalid h)]
+    rfl
+
 end Rivaas.C07
